@@ -1,5 +1,5 @@
 # replay of a bounded stand-in violation: re-run native/c01_backends.py
 import sys
-print("Vacuum() | q[1] of 2 (mixed) on fock: raised ValueError: einstein sum subscripts string included output subscript 'b' which never appeared in an input")
+print("Squeezed() | q[0] of 2 (mixed) on fock: raised ValueError: einstein sum subscripts string included output subscript 'd' which never appeared in an input")
 print('REPLAY-VIOLATION')
 sys.exit(1)
